@@ -547,6 +547,7 @@ type choiceRec struct {
 type frame struct {
 	choices []choiceRec
 	memo    map[string]int
+	vals    map[string]Value
 	loop    *loopCtx
 }
 
@@ -581,6 +582,10 @@ func (ev *Evaluator) Choose(tag string, opts []Value) Value {
 		owner.choices = append(owner.choices, choiceRec{tag: tag, n: len(opts), idx: 0})
 	}
 	owner.memo[tag] = pos
+	if owner.vals == nil {
+		owner.vals = map[string]Value{}
+	}
+	owner.vals[tag] = opts[owner.choices[pos].idx]
 	return opts[owner.choices[pos].idx]
 }
 
@@ -613,6 +618,7 @@ func (f *frame) snapshot(optsOf func(tag string, idx int) Value) map[string]Valu
 // TopRun is one global enumeration result.
 type TopRun struct {
 	Choices map[string]int
+	Picked  map[string]Value
 	Result  Value
 	Err     error
 }
@@ -632,10 +638,12 @@ func (ev *Evaluator) Enumerate(run func() Value) []TopRun {
 		ev.frames = ev.frames[:nf]
 		ev.loops = ev.loops[:nl]
 		ch := map[string]int{}
+		pk := map[string]Value{}
 		for tag, i := range f.memo {
 			ch[tag] = f.choices[i].idx
+			pk[tag] = f.vals[tag]
 		}
-		out = append(out, TopRun{Choices: ch, Result: res, Err: err})
+		out = append(out, TopRun{Choices: ch, Picked: pk, Result: res, Err: err})
 		if !f.next() {
 			break
 		}
@@ -973,6 +981,7 @@ func (ev *Evaluator) absLoop(env *Env, node ast.Node, body *ast.BlockStmt, keyOb
 		}
 		for tag, i := range f.memo {
 			run.Choices[tag] = f.choices[i].idx
+			run.Picked[tag] = f.vals[tag]
 		}
 		_ = picked
 		sum.Runs = append(sum.Runs, run)
